@@ -56,6 +56,24 @@ class ClosureCell:
     value: JSValue
 
 
+def _js_pow(a, b):
+    """a ** b on IEEE doubles, as in JavaScript. Python's own ** keeps integers
+    exact without bound (3 ** 40000000 runs for minutes and cannot be converted
+    afterwards), gives complex numbers for negative bases and raises for 0 ** -1."""
+    try:
+        result = math.pow(a, b)
+    except OverflowError:
+        # Beyond the double range; negative only for an odd power of a negative base
+        odd = float(b).is_integer() and int(b) % 2 == 1
+        result = -math.inf if a < 0 and odd else math.inf
+    except ValueError:
+        # 0 ** negative is Infinity, a fractional power of a negative base is NaN
+        result = math.inf if a == 0 else math.nan
+    if isinstance(a, int) and isinstance(b, int) and b >= 0 and abs(result) < 1e21:
+        return a**b  # small enough to stay an exact integer, as before
+    return result
+
+
 @dataclass
 class CallFrame:
     """Call frame on the call stack."""
@@ -494,7 +512,7 @@ class VM:
         elif op == OpCode.POW:
             b = self.stack.pop()
             a = self.stack.pop()
-            self.stack.append(to_number(a) ** to_number(b))
+            self.stack.append(_js_pow(to_number(a), to_number(b)))
 
         elif op == OpCode.NEG:
             a = self.stack.pop()
